@@ -23,7 +23,7 @@ LEVEL_TEXT = ("Theorems for all member lists / statement lists: is_wildcard_expo
               "the same names to related targets given related imports (the induction step of the composition over a dependency order); an __all__ "
               "assembled from strings and other modules' __all__ in any mix expands to exactly CPython's list; Alias.members rebases every path under "
               "the alias. The faithful model of the real traversal (seen-sets, early return, pending expansions, KeyError skips) refutes the full "
-              "property in ten ways, each proved by computation on a witness that is replayed on the implementation (findings F1-F10). The model "
+              "property in seven ways, each proved by computation on a witness that is replayed on the implementation (findings F3-F8, F10; F1, F2 and F9 are repaired and their witnesses are now regression cases). The model "
               "is tied to the code by differential runs: model vs griffe.load vs a fresh interpreter on generated packages.")
 LEVEL_NOTE = ("Trusted: Coq kernel, extraction, the package->model abstraction in this file, CPython as authority. NOT proved: (1) the composition of "
               "the per-module theorems into `griffe_sched = py_import` for whole acyclic programs (the step is proved, the induction over the order "
@@ -35,7 +35,7 @@ LEVEL_NOTE = ("Trusted: Coq kernel, extraction, the package->model abstraction i
               "leaked an `a/b/*` pseudo-member skip (C), and names whose alias chain crosses a replaced alias member accept either target (F7).")
 MODEL = ("Model.C05_imports", "run_C05")
 COQ_TARGETS = ["Proofs/C05_imports.vo"]
-RULE = ("hand-written packages (one per rule of the anchored code) and the ten finding witnesses; seeded random packages in three streams: flat "
+RULE = ("hand-written packages (one per rule of the anchored code) and the finding witnesses; seeded random packages in three streams: flat "
         "(package __init__ + 1-4 modules), rich (1-3 modules, a sub-package with 1-2 modules, optionally a nested sub-package) and cyclic (rich or "
         "flat plus 1-2 imports pointing forward in the order; model-vs-implementation only). A random dependency order (each __init__ before, after "
         "or among its descendants), every module importing only from earlier ones with from-import (absolute/relative, aliased), wildcard, "
@@ -781,11 +781,11 @@ def decode_model_table(tv):
 def decode_load(r):
     if r[0] == "ok":
         alts = {}
-        for mp, n, views in r[6]:
+        for mp, n, views in r[5]:
             alts[(mp, n)] = [["unresolved"] if v[0] == "unresolved" else [v[0], v[1]] for v in views]
-        return {"error": None, "modules": decode_model_table(r[1]), "f1": list(r[2]), "f3": [list(x) for x in r[3]], "unsupported": bool(r[4]),
-                "dropped": [list(x) for x in r[5]], "alts": alts, "xpending": [list(x) for x in r[7]], "special": [list(x) for x in r[8]]}
-    base = {"modules": {}, "f1": [], "f3": [], "dropped": [], "alts": {}, "xpending": [], "special": []}
+        return {"error": None, "modules": decode_model_table(r[1]), "f3": [list(x) for x in r[2]], "unsupported": bool(r[3]),
+                "dropped": [list(x) for x in r[4]], "alts": alts, "xpending": [list(x) for x in r[6]]}
+    base = {"modules": {}, "f3": [], "dropped": [], "alts": {}, "xpending": []}
     if r[0] == "crash":
         return dict(base, error=r[1], unsupported=False)
     return dict(base, error="model:" + str(r[0]), unsupported=True)
@@ -870,8 +870,8 @@ def _m(path, init, body):
     return {"path": path, "init": init, "body": body}
 
 
-def witness_packages():
-    """finding id -> (package, what to look at).  Each is replayed on the implementation on every run."""
+def all_witnesses():
+    """finding id -> package: the witnesses of the open findings and of the repaired ones (F1, F2, F9)."""
     W = {}
     # F1: expand_exports returns at a package without __all__ before visiting its submodules
     W["C05-F1"] = {"name": "wf1", "order": ["wf1.a", "wf1.b", "wf1"], "modules": [
@@ -942,6 +942,14 @@ def witness_packages():
     return W
 
 
+REPAIRED = ("C05-F1", "C05-F2", "C05-F9")
+
+
+def witness_packages():
+    """Open findings only: each witness is replayed on the implementation on every run."""
+    return {k: v for k, v in all_witnesses().items() if k not in REPAIRED}
+
+
 def has_stmt(pkg, tag):
     def walk(st):
         if st[0] == tag:
@@ -966,10 +974,7 @@ def classify(pkg, view, oracle, ml, ms_view, dmi, leak):
     """Yield (diff, finding id | None) for every difference between griffe.load and the interpreter."""
     d = diff_views(view, oracle)
     if view["error"]:
-        fid = None
-        if ml["error"] and ml["error"] == view["error"].split(":")[0] and ml["error"] in ("AttributeError", "AliasResolutionError"):
-            fid = "C05-F2"
-        return [(d[0], fid)]
+        return [(d[0], None)]
     sched = {"error": None, "modules": ms_view}
     ds = {(x[0], x[1]): x for x in diff_views(sched, oracle)}
     out = []
@@ -989,8 +994,6 @@ def classify(pkg, view, oracle, ml, ms_view, dmi, leak):
             # the dependency-order schedule of the same per-module rules differs from CPython in the same way
             if f5_signature(x, oracle):
                 out.append((x, "C05-F5"))
-            elif ml["special"] and not dmi:
-                out.append((x, "C05-F9"))
             elif ext and not dmi:
                 out.append((x, "C05-F6"))
             elif same_line and not dmi:
@@ -1001,10 +1004,10 @@ def classify(pkg, view, oracle, ml, ms_view, dmi, leak):
             # only the real traversal order is wrong: explained when the model predicts the result and reports the gap event
             if leak and ml["f3"]:
                 out.append((x, "C05-F3"))
-            elif not dmi and (ml["f3"] or ml["dropped"] or ml["f1"] or ml["xpending"]):
-                only = lambda k: ml[k] and not any(ml[o] for o in ("f1", "f3", "dropped", "xpending") if o != k)
+            elif not dmi and (ml["f3"] or ml["dropped"] or ml["xpending"]):
+                only = lambda k: ml[k] and not any(ml[o] for o in ("f3", "dropped", "xpending") if o != k)
                 out.append((x, "C05-F3" if only("f3") else "C05-F8" if only("dropped") else "C05-F10" if only("xpending") else
-                            "C05-F1" if ml["f1"] else "C05-F3" if ml["f3"] else "C05-F10" if ml["xpending"] else "C05-F8"))
+                            "C05-F3" if ml["f3"] else "C05-F10" if ml["xpending"] else "C05-F8"))
             else:
                 out.append((x, None))
     return out
@@ -1042,6 +1045,8 @@ def hand_packages():
         _m(["h2", "s", "n0"], False, [["from", ["h2", "s", "t", "d0"], "K", "g", "rel"], ["import", ["h2", "s", "t", "d0"], "x"]]),
         _m(["h2", "s", "t"], True, [["star", ["h2", "s", "t", "d0"], "rel"], ["setall", "tuple", [["s", "K"], ["s", "d0"]]]]),
         _m(["h2", "s", "t", "d0"], False, [["def", "K", "class"], ["def", "_Q", "class"]])]})
+    # witnesses of repaired findings (F1, F2, F9): they must now agree with the interpreter
+    H.extend(v for k, v in all_witnesses().items() if k in REPAIRED)
     return H
 
 
@@ -1114,9 +1119,8 @@ def check_packages(ctx, pkgs, stream, direct=True):
         nontrivial = any(st[0] in ("star", "setall") for _, st in stmt_tags(pkg))
         ctx.case({"sources": case["sources"]}, nontrivial)
         # ---- (C) faithful model vs implementation (needs no interpreter: also run on packages the interpreter rejects)
-        ctx.observe("model_outcome", "crash:" + ml["error"] if ml["error"] else "f1+f3" if ml["f1"] and ml["f3"] else "f1" if ml["f1"] else
-                    "f3-leak" if ml["f3"] and leak else "f3" if ml["f3"] else "f8-dropped" if ml["dropped"] else
-                    "f10-exports-pending" if ml["xpending"] else "f9-special" if ml["special"] else "f7-replaced-alias" if ml["alts"] else "clean")
+        ctx.observe("model_outcome", "crash:" + ml["error"] if ml["error"] else "f3-leak" if ml["f3"] and leak else "f3" if ml["f3"] else
+                    "f8-dropped" if ml["dropped"] else "f10-exports-pending" if ml["xpending"] else "f7-replaced-alias" if ml["alts"] else "clean")
         if ml["error"] and ml["error"].startswith("model:"):
             ctx.tie_failure("harness", "the model ran out of fuel or rejected its input", ml["error"], case)
             dmi = []
@@ -1133,9 +1137,9 @@ def check_packages(ctx, pkgs, stream, direct=True):
                 dmi = [x for x in dmi if ["unresolved"] not in (x[2], x[3])]
             ctx.count("c_compared")
             if dmi:
-                ctx.tie_failure("correspondence", "griffe_load(model) vs griffe.load", {"diffs": dmi[:6], "model_flags": [ml["f1"], ml["f3"]]}, case)
+                ctx.tie_failure("correspondence", "griffe_load(model) vs griffe.load", {"diffs": dmi[:6], "model_flags": [ml["f3"], ml["dropped"], ml["xpending"]]}, case)
         # the unproved link between the real traversal and the dependency-order schedule, checked on every clean run
-        if direct and not ml["error"] and not ml["f1"] and not ml["f3"] and not ml["dropped"] and not ml["xpending"] and not ml["unsupported"]:
+        if direct and not ml["error"] and not ml["f3"] and not ml["dropped"] and not ml["xpending"] and not ml["unsupported"]:
             if ml["modules"] != ms_view and (a["error"] is None and not a["flags"]):
                 ctx.tie_failure("correspondence", "griffe_load(model) vs griffe_sched(model) on a run without gap events",
                                 {"real": ml["modules"], "sched": ms_view}, case)
@@ -1198,8 +1202,7 @@ def replay_witnesses(ctx):
             dmi = diff_model_impl(ml, view)
             if dmi:
                 ctx.tie_failure("correspondence", f"model vs implementation on the witness of {fid}", dmi[:4], {"sources": package_sources(pkg)})
-            flags = {"C05-F1": bool(ml["f1"]), "C05-F2": ml["error"] == "AttributeError", "C05-F3": bool(ml["f3"]),
-                     "C05-F7": bool(ml["alts"]), "C05-F8": bool(ml["dropped"]), "C05-F9": bool(ml["special"]), "C05-F10": bool(ml["xpending"])}
+            flags = {"C05-F3": bool(ml["f3"]), "C05-F7": bool(ml["alts"]), "C05-F8": bool(ml["dropped"]), "C05-F10": bool(ml["xpending"])}
             if fid in flags and not flags[fid]:
                 ctx.tie_failure("correspondence", f"model does not report the gap event of {fid} on its witness", ml, {"sources": package_sources(pkg)})
 
@@ -1227,7 +1230,7 @@ def explore(ctx):
     if not ctx.quick:
         # vm_compute on string-heavy terms is slow: small flat packages only, plus the witnesses
         sample = [x for _ in range(3) for x in model_inputs(gen_package(ctx.rng, "xc", rich=False))]
-        sample += [x for p in list(witness_packages().values())[:3] for x in model_inputs(p)[:1]]
+        sample += [x for p in list(all_witnesses().values())[:3] for x in model_inputs(p)[:1]]
         ctx.cross_check_extraction(sample, n=12)
 
 
@@ -1257,9 +1260,7 @@ def search(ctx):
             for x in d:
                 if f5_signature(x, a):
                     continue
-                if view["error"] and trig["f2"]:
-                    continue
-                if not view["error"] and (trig["f1"] or trig["f3"]):
+                if not view["error"] and (trig["f3"] or (trig["f8"] and (x[1] == "__all__" or x[2] is None or x[2][0] == "unresolved"))):
                     continue
                 if not view["error"] and trig["f7"] and x[2] is not None and x[3] is not None and x[1] != "__all__":
                     continue
@@ -1272,15 +1273,15 @@ def search(ctx):
 def py_triggers(pkg):
     """Structural over-approximations of the gap predicates, used only when the model cannot be run."""
     mods = {tuple(m["path"]): m for m in pkg["modules"]}
-    has_all = {p: any(st[0] == "setall" for _, st in stmt_tags({"modules": [m]})) for p, m in mods.items()}
     refs = {p: any(st[0] in ("setall", "addall") and any(i[0] != "s" for i in st[2]) for _, st in stmt_tags({"modules": [m]})) for p, m in mods.items()}
-    f1 = any(refs[p] and any(not has_all[p[:k]] for k in range(1, len(p))) for p in mods)
     stars = {p: [tuple(st[1]) for _, st in stmt_tags({"modules": [m]}) if st[0] == "star"] for p, m in mods.items()}
     f3 = any(stars[t] for p in mods for t in stars[p] if t in mods)      # a wildcard import of a module that has wildcard imports of its own
-    f2 = any(refs.values())
-    # an explicitly imported name may be re-bound by a wildcard import of the same module (replaced alias member: F7, F9)
+    # an __all__ source named through another module's namespace (F8), or two modules with assembled __all__ (F10)
+    f8 = sum(1 for v in refs.values() if v) >= 2 or any(
+        st[0] == "from" and st[2] != "__all__" and st[3] and st[3][0] == "w" for m in mods.values() for _, st in stmt_tags({"modules": [m]}))
+    # an explicitly imported name may be re-bound by a wildcard import of the same module (replaced alias member: F7)
     f7 = any(stars[p] and any(st[0] in ("from", "import") for _, st in stmt_tags({"modules": [m]})) for p, m in mods.items())
-    return {"f1": f1, "f2": f2, "f3": f3, "f7": f7}
+    return {"f3": f3, "f7": f7, "f8": f8}
 
 
 def replay(ctx, data):
@@ -1303,7 +1304,7 @@ def replay(ctx, data):
     print("differences:", json.dumps(diff_views(view, orc))[:3000])
     if ctx.driver is not None:
         outs = ctx.model(model_inputs(pkg, root))
-        print("model  :", json.dumps(decode_load(outs[0]))[:3000])
+        print("model  :", json.dumps({k: v for k, v in decode_load(outs[0]).items() if k != "alts"})[:3000])
     subprocess.run(["rm", "-rf", str(root)])
     subprocess.run(["rmdir", str(ctx.scratch)], capture_output=True)      # the framework only removes the scratch directory of full runs
     return 0
